@@ -44,7 +44,10 @@ OD_KEYS = ["p", "q"]
 DC_KEYS = ["x:y", "attrs:z", ":w"]
 DV_KEYS = [":href", ":xlink:href", ":a:b:c"]
 
-PLAIN_KEYS = ["k", "k2", "key", "data", "class", "title", "a_b", "_x", "K9"]
+PLAIN_KEYS = ["k", "k2", "key", "data", "class", "title", "a_b", "_x", "K9", "context"]
+# keyword name that is a parameter of every tag's own render(self, context, ...): for a COMPONENT it is an ordinary keyword input
+# (`self=` is not: it cannot be delivered to a method such as get_context_data(self, **kwargs) in Python either)
+RENDER_PARAM_KEYS = {"context"}
 SPECIAL_KEYS = ["my-date", "@click.native", "#some_id", "data-id", "x.y", "@a-b_c.d#e", "-z", ".dot", "_"]
 AGG_PREFIXES = ["attrs", "props", "v-on", "@agg"]
 AGG_INNER = ["class", "@click", "data-id", "my_key:two", "x.y", "#id", "a", "click.stop", "b:c:d"]
